@@ -18,8 +18,12 @@ CMP = 'adsg_core/optimization/hierarchy/complete.py:'
 
 SUP = 'adsg_core/graph/sup/dsg.py:'
 CH = 'adsg_core/graph/choices.py:'
+CC = 'adsg_core/graph/choice_constraints.py:'
 
 CASES = [
+    (CC + 'get_valid_idx_combinations.<locals>._check_gte', 'break', "                if row[i_value] < row[i_value-1]:", "                if row[i_value] <= row[i_value-1]:"),
+    (CC + 'get_valid_idx_combinations.<locals>._check_gt', 'break', "                if row[i_value] <= row[i_value-1]:", "                if row[i_value] < row[i_value-1]:"),
+    (CC + 'get_valid_idx_combinations.<locals>._check_gt', 'break', "            for i_value in range(1, len(row)):\n                if row[i_value] <= row[i_value-1]:", "            for i_value in range(2, len(row)):\n                if row[i_value] <= row[i_value-1]:"),
     (CH + 'get_mod_apply_connection_choice', 'break', "            edge_key[edge] += 1\n", "            pass\n"),
     (CH + 'get_mod_apply_connection_choice', 'break', "if edge[0] not in in_nodes or (edge[1] is not None and edge[1] not in out_nodes):", "if edge[0] not in in_nodes and (edge[1] is not None and edge[1] not in out_nodes):"),
     (CH + 'get_mod_apply_connection_choice', 'break', "removed_edges = set(choice_node.get_excluded_edges(graph)) | set(choice_node.get_deriving_edges(graph))", "removed_edges = set(choice_node.get_excluded_edges(graph))"),
